@@ -1520,7 +1520,7 @@ static bool tag_compare(const deque<int> &d, size_t a_idx, size_t b_idx, size_t 
    {
       while (len-- > 0)
       {
-         if (d[a_idx] != d[b_idx])
+         if (d[a_idx++] != d[b_idx++])
          {
             return(false);
          }
